@@ -128,5 +128,7 @@ package encoder
 //@ loop 3 invariant[position@C11] newPos[i] == len(newInsts)
 //@ loop 3 invariant[here] i < len(cf.Instructions) ==> specV1Chain(cf.Instructions, opWidth, newPos, i)
 //@ loop 4 invariant verifrt.Fresh(operands) && verifrt.Disjoint(operands, newPos)
+//@ loop 4 invariant[reloc@C11] forall k int :: 0 <= k && k < verifIdx ==> specV1Relocated(newPos, specV1Target(cf.Instructions, i+1+2*k), operands[k])
+//@ loop 4 invariant[pending] forall k int :: verifIdx <= k && k < len(operands) ==> operands[k] == specV1Target(cf.Instructions, i+1+2*k)
 //@ loop 4 invariant[nonneg] forall k int :: verifIdx <= k && k < len(operands) ==> 0 <= operands[k]
 //@ property C11
